@@ -66,7 +66,7 @@ func main() {
 	out := flag.String("out", "", "trace ndjson")
 	stats := flag.String("stats", "", "stats json")
 	subs := flag.Int("subs", 2, "event bus subscribers")
-	variant := flag.String("variant", "plain", "plain|indexed|branchable")
+	variant := flag.String("variant", "plain", "plain|indexed|branchable|concurrent")
 	max := flag.Int("max", 0, "max schedules")
 	stride := flag.Int("stride", 1, "take every k-th schedule")
 	budget := flag.Duration("budget", 0, "time budget")
@@ -104,6 +104,7 @@ func main() {
 		fmt.Fprintln(os.Stderr, err)
 		os.Exit(2)
 	}
+	r.ConcurrentTxns = *variant == "concurrent"
 	f, err := os.Create(*out)
 	if err != nil {
 		fmt.Fprintln(os.Stderr, err)
